@@ -10,6 +10,7 @@
 (*                             "error" (the table is empty)                *)
 (*   OCall, ORet(class)        the API call and its return                 *)
 (*   OCancel, OSrvClose, OAnnClose, OStopTrav, OConsGone   the user        *)
+(*   OSkip                     the scenario was abandoned (no verdict)     *)
 (*   OQuiesce(txns, gor, hung) what is left after the bound (hung: a       *)
 (*                             blocking owner has not returned / the       *)
 (*                             announce has not signalled Finished)        *)
@@ -55,6 +56,7 @@ TraceSrvClose == Upd("OSrvClose", [o EXCEPT !.shut = TRUE])
 TraceAnnClose == Upd("OAnnClose", [o EXCEPT !.stopReq = TRUE])
 TraceStopTrav == Upd("OStopTrav", [o EXCEPT !.stopReq = TRUE])
 TraceConsGone == Upd("OConsGone", [o EXCEPT !.consGone = TRUE])
+TraceSkip == Upd("OSkip", o)     \* the scenario's point was not reached; nothing is claimed
 TraceQuiesce ==
   /\ IsEvent("OQuiesce")
   /\ obs' = [set |-> TRUE, txns |-> Ev.txns, gor |-> Ev.gor, hung |-> Ev.hung]
@@ -72,7 +74,7 @@ ReportAll == /\ Check("ObsOwnerStopped", ObsOwnerStopped') /\ Check("ObsOwnerCle
              /\ Check("ObsOwnerResult", ObsOwnerResult')
 
 TraceNext == /\ \/ TraceStart \/ TraceCall \/ TraceRet \/ TraceCancel \/ TraceSrvClose \/ TraceAnnClose
-                \/ TraceStopTrav \/ TraceConsGone \/ TraceQuiesce
+                \/ TraceStopTrav \/ TraceConsGone \/ TraceQuiesce \/ TraceSkip
              /\ Report => ReportAll
 
 TraceSpec == TraceInit /\ [][TraceNext]_tvars
